@@ -1,6 +1,7 @@
 import Exetera.Props.C04
 import Exetera.Lemmas.GenKernelsMapValid
 import Exetera.Lemmas.GenKernelsExtents
+import Exetera.Lemmas.GenKernelsSubchunk
 /-!
   C04 over the TRANSLATED kernels `map_valid` and `ordered_map_valid_partial` (`Gen/Kernels.lean`, regenerated from
   operations.py by tools/translate_njit.py on every run).
@@ -88,5 +89,20 @@ theorem gen_extents_correct (m : List Int) (s e : Nat) (inv : Int) (hse : s < e)
 
 example : get_valid_value_extents.run [-1, 4, -1, 6, -1] 0 5 (-1) 5 = .ok (4, 6) := rfl
 example : get_valid_value_extents.run [-1, 4, -1, 6, -1] 3 3 (-1) 5 = .error (.other "UnboundLocalError") := rfl
+
+/-! ## next_map_subchunk -/
+
+/-- the translated `next_map_subchunk` never fails (every subscript sits behind `sm < len(map_)`), ends within
+    `len(map_) − sm` iterations of either loop, and returns exactly the model function `nextMapSubchunk` that
+    `get_map_subchunks_based_on_index_lengths` (`MapValid.subchunks`) iterates — so `subchunks_partition`,
+    `subchunk_entries_ordered` and `source_window_bounded` of Props/C04 speak about the sub-chunk boundaries the translated
+    kernel computes -/
+theorem gen_next_map_subchunk_eq (m : List Int) (sm : Nat) (inv : Int) (cs : Nat) (fuel : Nat) (hf : m.length - sm ≤ fuel) :
+    next_map_subchunk.run m sm inv cs fuel = .ok ((nextMapSubchunk m sm inv cs : Nat) : Int) :=
+  next_map_subchunk_eq m sm inv cs fuel hf
+
+/-- the NC02a shape: the sub-chunk ends where the map steps back -/
+example : next_map_subchunk.run [0, 1, 2, 0, 1, 2] 0 4611686018427387904 1000 6 = .ok 3 := rfl
+example : next_map_subchunk.run [-1, -1, 5, 6, 9] 0 (-1) 2 5 = .ok 4 := rfl
 
 end Exetera.Props.C04Gen
